@@ -104,6 +104,8 @@ def counter_rule(body, place, inc, lps):
     key = place_key(place)
     if key is None:
         return False, 'dynamic place'
+    if len(lps) == 0:
+        return helper_counter_rule(body, place, key)
     if len(lps) != 1:
         return False, 'expected exactly one loop, found %d' % len(lps)
     header, srcs = next(iter(lps.items()))
@@ -136,6 +138,95 @@ def counter_rule(body, place, inc, lps):
                 continue
             return False, 'counter is written by something other than a constant or a constant increment'
     return True, 'grows by at most %d per input byte' % (max(incs) if incs else 0)
+
+
+def _const_incs(body, key):
+    """constant increments written to the place (None if it is written by anything but a constant or `place + c`), with points"""
+    incs = []
+    for pt, s in body.points():
+        if s['k'] == 'assign' and place_key(s['p']) == key:
+            r = s['r']
+            if r['k'] == 'use' and r['o']['k'] == 'const' and 'int' in r['o']:
+                continue
+            if r['k'] == 'use' and r['o']['k'] in ('move', 'copy'):
+                p = r['o']['p']
+                ds = body.whole_defs(p['l'])
+                if p['pr'] and p['pr'][0].get('f') == 0 and len(ds) == 1 and ds[0][2]['r']['k'] == 'bin' and \
+                        ds[0][2]['r']['op'] in ('AddWithOverflow', 'Add'):
+                    rr = ds[0][2]['r']
+                    if rr['a']['k'] in ('copy', 'move') and place_key(rr['a']['p']) == key and rr['b']['k'] == 'const':
+                        incs.append((pt, rr['b']['int']))
+                        continue
+            if r['k'] == 'bin' and r['op'] == 'Add' and r['a']['k'] in ('copy', 'move') and \
+                    place_key(r['a']['p']) == key and r['b']['k'] == 'const':
+                incs.append((pt, r['b']['int']))
+                continue
+            return None
+    return incs
+
+
+def _guarding_bool_params(body, pt):
+    """parameters p (bool, never reassigned) such that pt is only reached over the *true* edge of a switch on p"""
+    out = set()
+    dom = body.dom().get(pt[0], set())
+    for d in dom:
+        t = body.term(d)
+        if t['k'] != 'switch':
+            continue
+        sp = source_place(body, t['d'])
+        if sp is None or sp['pr'] or not body.is_arg(sp['l']) or body.local_ty(sp['l']) != 'bool' or body.defs(sp['l']):
+            continue
+        false_t = [x[1] for x in t['targets'] if x[0] == 0]
+        if not false_t:
+            continue
+        g = t['otherwise']
+        if (g == pt[0] or g in dom) and len(body.preds(g)) == 1 and g not in false_t:
+            out.add(sp['l'])
+    return out
+
+
+def helper_counter_rule(body, place, key):
+    """per-byte counter kept in a loop-free private helper: the helper adds a constant at most once per call; every caller in
+    the crate calls it either from inside its single loop, which consumes one element of a slice iterator per iteration, or
+    with a constant `false` for a flag parameter whose true edge guards every increment (then that call never increments)"""
+    f = body.facts
+    if body.d['kind'] == 'Closure' or body.d.get('pub') or body.d.get('vis') == 'pub' or body.d.get('impl_trait'):
+        return False, 'counter incremented outside a loop in a function that is not a private helper'
+    if not place['pr'] or not body.is_arg(place['l']) or not body.local_ty(place['l']).startswith('&mut'):
+        return False, 'helper counter is not a field behind a `&mut` parameter'
+    incs = _const_incs(body, key)
+    if incs is None:
+        return False, 'counter is written by something other than a constant or a constant increment'
+    guards = None
+    for pt, c in incs:
+        g = _guarding_bool_params(body, pt)
+        guards = g if guards is None else (guards & g)
+    guards = guards or set()
+    callers = 0
+    for cb in f.body_list:
+        if cb.promoted is not None:
+            continue
+        for cpt, ct in cb.calls():
+            c = ct.get('callee')
+            if not c or (c.get('resolved') or c['path']) != body.key:
+                continue
+            callers += 1
+            if any(ct['args'][g - 1]['k'] == 'const' and (ct['args'][g - 1].get('bool') is False or ct['args'][g - 1].get('int') == 0)
+                   for g in guards if g - 1 < len(ct['args'])):
+                continue                              # this call cannot reach an increment
+            lps = loops(cb)
+            if len(lps) != 1:
+                return False, 'caller %s: expected exactly one loop, found %d' % (cb.path, len(lps))
+            header, srcs = next(iter(lps.items()))
+            if cpt[0] not in loop_blocks(cb, header, srcs):
+                return False, 'caller %s calls the helper outside its loop with the increment enabled' % cb.path
+            nexts = [npt for npt, nt in cb.calls() if nt.get('callee') and nt['callee']['name'] == 'next' and nt['args']
+                     and 'slice::Iter' in nt['arg_tys'][0]]
+            if not any(all(cb.dominates(n, (s_, 0)) for s_ in srcs) for n in nexts):
+                return False, 'caller %s: no slice-iterator `next` dominating every back edge' % cb.path
+    if callers == 0:
+        return False, 'helper has no caller in the crate'
+    return True, 'helper called once per input byte; grows by at most %d per call' % (max(c for _, c in incs) if incs else 0)
 
 
 def discharge_assert(body, pt, t, R, lps):
